@@ -126,6 +126,9 @@ func runC02(c *Ctx, tier string) {
 	runElisionEvidence(c, "C02-D1")
 	runFloatShortcutSign(c, "C02-N1")
 	runMapKeyLexicalUnderlying(c, "C02-M1")
+	runSelfDescribingKinds(c, "C02-S2")
+	runZSONKindsThroughNamed(c, "C02-U1")
+	runTypeNamesQuoted(c, "C02-Q1")
 }
 
 // ---------------------------------------------------------------- C03
@@ -302,6 +305,7 @@ func runC03(c *Ctx, tier string) {
 		c.Undecided("C03-O2", "vng encoders", "fewer than 5 encoders with sub-encoders found")
 	}
 	_ = sort.Strings
+	runFlattenedNullsCached(c, "C03-F1")
 }
 
 // subCallSeq lists, in source order, the receivers of calls to method `name` in fd's body;
